@@ -284,6 +284,36 @@ def variant_checks(res, rng, ctx, prefix):
 
 
 
+def replay_violations(data):
+    """`./check Cxx --replay FILE` for the kernel-level properties: re-run core.derivatives on every recorded failing input
+    (interpreted path) and print what the real code returns now."""
+    import json as _json
+    from . import impl  # noqa: F401
+
+    for v in data.get("violations", []):
+        r = v.get("replay", {})
+        print("violation:", v.get("key"), "-", str(v.get("what"))[:300])
+        if isinstance(r, dict) and "case" in r and isinstance(r["case"], dict):
+            r = r["case"]
+        if isinstance(r, dict) and all(k in r for k in ("A", "f", "L")):
+            A = np.asarray(r["A"], float)
+            L = np.asarray(r["L"], float)
+            ps = r.get("params") or [r.get("p", 1.5), r.get("nexp", 3.5), r.get("lam", 5.0), r.get("M", 125.0), r.get("phi", 1.0)]
+            case = dict(regime=int(r.get("regime", 4)), phase=int(r.get("phase", 0)), fabric=int(r.get("fabric", 0)), n=len(A), A=A,
+                        f=np.asarray(r["f"], float), D=(L + L.T) / 2, L=L, spin=np.zeros((3, 3)), p=ps[0], nexp=ps[1], lam=ps[2], M=ps[3], phi=ps[4])
+            out = call_derivatives(case)
+            if out[0] == "ok":
+                print("  core.derivatives now returns: rates finite =", bool(np.isfinite(out[1]).all() and np.isfinite(out[2]).all()),
+                      " sum(fdot) =", float(out[2].sum()), "\n  Adot[0] =", out[1][0].tolist() if len(out[1]) else None, "\n  fdot =", out[2].tolist()[:8])
+            else:
+                print("  core.derivatives now raises:", out[1], out[2])
+        else:
+            print("  recorded input:", _json.dumps(r)[:1500])
+    for b in data.get("unchecked", []):
+        print("unchecked obligation / correspondence:", _json.dumps(b)[:1500])
+    return 0
+
+
 # ---------------------------------------------------------------- JIT worker
 def run_jit(cases, timeout=900):
     """Evaluate `call_derivatives` on the compiled (numba) path in a fresh process."""
